@@ -870,3 +870,20 @@ V("c01a-passive-kerr-factor-order", "C01", "silent",
   (PSTEPS1, "            1j * xi * state._occupation_numbers[i][mode] ** 2\n", "            xi * 1j * state._occupation_numbers[i][mode] ** 2\n"))
 V("c01b-displacement-euler-form", "C01", "silent",
   (GSTEPS1, "        state._m, indices, state._m[indices] + r * np.exp(1j * phi)\n", "        state._m, indices, state._m[indices] + r * (np.cos(phi) + 1j * np.sin(phi))\n"))
+
+# --- C05d index spaces, C03d normalised projection
+PSTEPS2 = "piquasso/_simulators/passive/simulation_steps.py"
+V("c05d-active-positions-to-marginals", "C05", {"rule": "C05d", "contains": "get_marginal_fock_probabilities"},
+  (PSTEPS2, "            probabilities = state.get_marginal_fock_probabilities(\n                modes=map_to_original_modes(modes, postselected_modes)\n            )\n",
+   "            probabilities = state.get_marginal_fock_probabilities(modes=modes)\n"))
+V("c05d-original-labels-to-postselection", "C05", {"rule": "C05d", "contains": "_copy_with_postselection"},
+  (PSTEPS2, "            probabilities = state.get_marginal_fock_probabilities(\n                modes=map_to_original_modes(modes, postselected_modes)\n            )\n",
+   "            modes = map_to_original_modes(modes, postselected_modes)\n            probabilities = state.get_marginal_fock_probabilities(modes=modes)\n"))
+V("c05d-conversion-bound-first", "C05", "silent",
+  (PSTEPS2, "            probabilities = state.get_marginal_fock_probabilities(\n                modes=map_to_original_modes(modes, postselected_modes)\n            )\n",
+   "            labels = map_to_original_modes(modes, postselected_modes)\n            probabilities = state.get_marginal_fock_probabilities(modes=labels)\n"))
+PUREUTILS = "piquasso/_simulators/fock/pure/simulation_steps/utils.py"
+V("c03d-pure-projection-not-normalised", "C03", {"rule": "C03d", "contains": "fock.pure.simulation_steps:particle_number_measurement"},
+  (PURESTEPS1, "            modes=instruction.modes,\n            normalization=normalization,\n        )\n\n        branch = Branch(new_state, sample, frequency=frequency)",
+   "            modes=instruction.modes,\n        )\n\n        branch = Branch(new_state, sample, frequency=frequency)"),
+  (PUREUTILS, "    normalization: float,\n) -> PureFockState:\n    remaining_state_vector = normalization * _get_remaining_state_vector(", ") -> PureFockState:\n    remaining_state_vector = _get_remaining_state_vector("))
